@@ -160,6 +160,11 @@ def make (c):
         objs = [int (x) for x in rd.permutation (n) [: int (rd.integers (1, min (n, 3)))]]
         kind = str (rd.choice (['skin', 'skin', 'ins']))
         spec ['dist'] = dict (objs = objs, kind = kind, cond = float (10 ** rd.uniform (3, 6)), eps = float (rd.uniform (1.5, 4)), rfac = float (rd.uniform (1.3, 3)))
+        if kind == 'skin' and rd.random () < 0.5:
+            # every wire of its own material (copper arms on a resistance-wire section): the loss of a junction pulse is
+            # that of its two halves, each of the material of the wire it lies on
+            spec ['dist']['objs']  = list (range (n))
+            spec ['dist']['conds'] = {str (i): float (10 ** rd.uniform (2.5, 7.8)) for i in range (n)}
     return add_var (c, rng, spec)
 # end def make
 
@@ -286,7 +291,7 @@ def variant (spec, mask = None, perm = None, tags = None, split = None):
             g ['tag'] = i + 1
             if g ['_id'] in d ['objs']:
                 if d ['kind'] == 'skin':
-                    s ['loads'].append (dict (k = 'skin', cond = d ['cond'], tag = i + 1))
+                    s ['loads'].append (dict (k = 'skin', cond = (d.get ('conds') or {}).get (str (g ['_id']), d ['cond']), tag = i + 1))
                 else:
                     s ['loads'].append (dict (k = 'ins', radius = d ['rfac'] * max (x ['r'] for x in s ['geo']), eps = d ['eps'], tag = i + 1))
     for g in s ['geo']:
